@@ -176,6 +176,36 @@ func runRibHistory(c *h.Ctx, id string, seed int64, algo string, prop string) {
 	}
 	origins := []uint64{0, 65, 128, 255}
 	costs := []uint64{0, 1, 5, 10}
+	// one history in six starts with a crowd: 17-40 different faces register a prefix and a longer one
+	// below it (child-inherit on), so one flattened next-hop set holds more faces than any small
+	// fixed-size structure expects
+	if r.Intn(6) == 0 {
+		parent := u.PickDepth(r, 1+r.Intn(2))
+		child := u.Extend(r, parent, 2)
+		nCrowd := 17 + r.Intn(24)
+		for f := 0; f < nCrowd; f++ {
+			name := parent
+			if f%3 == 2 {
+				name = child
+			}
+			op := ribOp{Op: "register", Name: name.String(), Face: uint64(100 + f), Origin: 0, Cost: costs[r.Intn(len(costs))], Flags: 1}
+			hist = append(hist, op)
+			if pi := h.Guard(func() {
+				table.Rib.AddEncRoute(name.Clone(), &table.Route{FaceID: op.Face, Origin: 0, Cost: op.Cost, Flags: op.Flags})
+			}); pi != nil {
+				fail("C06:panic:register:"+pi.Frame+":"+pi.Class, "RIB operation panicked: "+pi.Value, nil)
+				return
+			}
+			ref.add(name, refRoute{op.Face, 0, op.Cost, op.Flags})
+		}
+		c.Count("histories_with_a_crowd_of_faces", 1)
+		c.Distinct("crowd-of-faces")
+		if prop == "C06" {
+			c06Check(c, fib, ref, probes, u, r, fail)
+		} else {
+			c08RibStruct(c, fib, ref, m, fail)
+		}
+	}
 	for step := 0; step < nOps; step++ {
 		name := u.Pick(r)
 		if len(ref.routes) > 0 && r.Intn(2) == 0 {
